@@ -45,10 +45,10 @@ def run_demo(wt, demo, exe):
         for f in glob.glob(os.path.join(os.path.dirname(demo), os.path.basename(demo).split("_")[0] + "_demo.*")):
             _sh.copy(f, tmpd)
         demo2 = os.path.join(tmpd, os.path.basename(demo))
-        txt = re.sub(r"/tmp/mut2?-C\d\d", wt, open(demo2).read())
+        txt = re.sub(r"/tmp/mut\d?-C\d\d", wt, open(demo2).read())
         open(demo2, "w").write(txt)
         demo = demo2
-        p = sh(["bash", demo, wt], cwd=wt, timeout=600, env=dict(os.environ, TREE=wt, WT=wt, WORKTREE=wt, SKINNY_ROOT=wt, ROOT=wt, SRC=wt))
+        p = sh(["bash", demo, wt], cwd=wt, timeout=600, env=dict(os.environ, TREE=wt, WT=wt, WORKTREE=wt, SKINNY_ROOT=wt, ROOT=wt, SRC=wt, SKINNY_SRC=wt, SKINNY_TREE=wt, SKINNY_DIR=wt, REPO=wt))
     else:
         if "_skinny_verif_backend_cap" in open(demo).read():
             # the demonstration pins back ends through the verification hook: it needs a library built with the guard on
